@@ -272,6 +272,8 @@ def rule_G3c(prog, fixture=False):
     res = RuleResult("G3c", "every normal return of a slice assignment operator lies behind a copy into the slice (a copy primitive, an "
                             "element write, a delegation to another assignment) - or is reached only when there is nothing to copy: the "
                             "slice is empty, or source and destination are the same elements (same storage, same start, same step)")
+    global _SIZEISH_PROG
+    _SIZEISH_PROG = prog
     methods = sorted([f for f in prog.functions.values() if f.cls and SLICE_CLASS.match(f.cls) and f.kind == "method" and not f.get("implicit")
                       and _short(f.qn) == "operator=" and f.body() is not None], key=lambda f: (f.cls, f.line))
     if not methods and not fixture:
@@ -413,6 +415,9 @@ def _mentions_this(e, depth):
     return False
 
 
+_SIZEISH_PROG = None
+
+
 def _says_empty(c, pol):
     """(count == 0) holds / !(count != 0) / (count < 1) / empty()"""
     cmp_ = as_comparison(c)
@@ -428,6 +433,7 @@ def _says_empty(c, pol):
     def lit(e):
         e = e.strip_all()
         return int(e.get("v")) if e.k == "IntegerLiteral" else None
+    depth = [0]
 
     def sizeish(e):
         e = e.strip_all()
@@ -437,6 +443,16 @@ def _says_empty(c, pol):
             return d is not None and sizeish(d)
         if e.k == "CXXMemberCallExpr" and _short((e.callee or {}).get("qn")) in ("size", "count"):
             return True
+        if e.k == "CXXMemberCallExpr" and e.callee and e.callee.get("repo") and _SIZEISH_PROG is not None and depth[0] < 2:
+            # count = _matched_count(rhs.size()): a member helper every return of which hands back the slice's own count
+            g = _SIZEISH_PROG.functions.get(e.callee.get("usr"))
+            o = e.call_object()
+            if g is not None and (o is None or o.strip_all().k == "CXXThisExpr"):
+                rets = [x for x in g.walk() if x.k == "ReturnStmt" and x.c]
+                depth[0] += 1
+                ok = bool(rets) and all(sizeish(x.c[0]) for x in rets)
+                depth[0] -= 1
+                return ok
         return e.k == "MemberExpr" and e.decl and e.decl.get("n") in ("_nc",)
     for (a, b, o) in ((l, r, op), (r, l, {"<": ">", "<=": ">=", ">": "<", ">=": "<=", "==": "==", "!=": "!="}[op])):
         v = lit(b)
